@@ -96,7 +96,8 @@ def cases(unit):
             for n in (255, 256, 257, 512):
                 yield {'fam': 'longkey', 'join': join, 'n': n}
             yield {'fam': 'reuse_op', 'join': join}
-            yield {'fam': 'manykeys', 'join': join, 'keys': 200 if unit['tier'] == 'quick' else 16500}
+            yield {'fam': 'manykeys', 'join': join, 'keys': 200}
+            yield {'fam': 'manykeys', 'join': join, 'keys': 16500}
     elif fam == 'plain':
         sh, n = unit['shard']
         for i, seq in enumerate(spaces.sequences([0, 1, 2], unit['L'])):
